@@ -54,6 +54,8 @@ def tasks(tier):
                 ts.append(("A", ct, g, first, n))
                 ts.append(("B", ct, g, first, n))
     ts.append(("small",))
+    for ct in ("std", "range"):
+        ts.append(("long", ct))
     return ts
 
 
@@ -115,6 +117,19 @@ def run_task(task, acc):
                     for mo, mp in MINS:
                         for s, f in THR3:
                             yield dict(x=x, gaps=list(GAPSETS[g]), check_type=ct, suspect=s, fail=f, test_period=tp, min_obs=mo, min_period=mp)
+        run_cases(acc, gen(), check_case)
+    elif kind == "long":
+        ct = task[1]
+
+        def gen():
+            x = alpha.debruijn(SIGMA, 4)
+            gaps_r = [60] * len(x)
+            gaps_i = [(60, 120, 300, 60, 60)[i % 5] for i in range(len(x))]
+            for gaps in (gaps_r, gaps_i):
+                for tp in (None,) + PERIODS:
+                    for mo, mp in (MINS if tp else MINS[:1]):
+                        for s, f in ((0.75, 0.25), (2.5, 1.0), (0.25, 2.5), (1.0, 1.0)):
+                            yield dict(x=list(x), gaps=gaps, check_type=ct, suspect=s, fail=f, test_period=tp, min_obs=mo, min_period=mp)
         run_cases(acc, gen(), check_case)
     elif kind == "small":
         def gen():
